@@ -62,6 +62,7 @@ class Normalised:
         self.param_memo = {}
         self.payload_memo = {}
         self.trail = []
+        self.kinds = set()      # folding functions met while deciding (to_lowercase / to_ascii_lowercase)
 
     def ok(self, fn, e, depth=0, why=None):
         why = why if why is not None else []
@@ -82,6 +83,7 @@ class Normalised:
         if k == "call":
             n = strip_generics(a[1])
             if n.endswith("::to_lowercase") or n.endswith("::to_ascii_lowercase"):
+                self.kinds.add(n.rsplit("::", 1)[-1])
                 return True
             # key read back from a table map through an iterator chain
             if any(n.endswith(s) for s in ITER_STEPS) or n.endswith("::remove_entry"):
@@ -378,3 +380,24 @@ def check_map_key_consistency(ctx, P, rule, field, owner):
         ctx.ob(rule, "%s.%s|%s#%d" % (owner, field, label, k), False, where(f2, f2.loc() and b if f2 is f else 0) if False else f.loc(b),
                "%s.%s is keyed by %s in %d place(s), but this key (%s, passed from %s) is %s: the lookup misses for every name that has a "
                "capital letter" % (owner, field, majority_is, len(seen) - len(minority), show(alt)[:70], f2.short, "lower-cased" if low else "not lower-cased"))
+
+
+def check_single_folding(ctx, P, maps, rule):
+    """the keys of one table are all folded by the same function: `to_lowercase` (Unicode) and `to_ascii_lowercase`
+    agree on ASCII names only — a table written with one and read with the other misses for a name such as
+    `ÉCOLE.local.`"""
+    per_map = {}
+    n = {}
+    for (f, b, t, mp, m, key) in keyed_accesses(P, maps):
+        norm = Normalised(P)        # fresh memo: every folding call on this key's flows is visited
+        norm.ok(f, key, 0, [])
+        n[mp] = n.get(mp, 0) + 1
+        for k in norm.kinds:
+            per_map.setdefault(mp, {}).setdefault(k, []).append("%s (%s)" % (f.short, where(f, b)))
+    for mp in sorted(maps):
+        kinds = per_map.get(mp, {})
+        ok = len(kinds) <= 1
+        ctx.ob(rule, mp, ok and n.get(mp, 0) > 0, "",
+               "all keys of %s are folded by %s (%d accesses)" % (mp, "/".join(sorted(kinds)) or "-", n.get(mp, 0)) if ok else
+               "keys of %s are folded by different functions: %s — they disagree for names with non-ASCII capitals, so a lookup misses an entry "
+               "stored under the other spelling" % (mp, "; ".join("%s in %s" % (k, ", ".join(v[:3])) for k, v in sorted(kinds.items()))))
